@@ -22,6 +22,10 @@ type c14P struct {
 	At      int    // inject before the At-th Get SDR (1-based); for info-modify: before the At-th repository info
 	At2     int
 	Suite   int
+	// TS selects the timestamp regime: 0 ordinary; 1 modifications are stamped
+	// 0xffffffff ("unspecified", also the largest stamp); 2 stamps cross
+	// 0x7fffffff/0x80000000; 3 stamps start at 0; 4 stamps just below 0xffffffff
+	TS int
 }
 
 type c14Batch struct {
@@ -43,7 +47,7 @@ func init() {
 			"the simulated repository requires the current reservation for partial reads and answers over-long reads with 0xCA, as a conforming BMC may"},
 		Gen: func(tier string, seed int64) []ev.Case {
 			var cs []ev.Case
-			nfree, nfault := 300, 25
+			nfree, nfault := 300, 45
 			if tier == "thorough" {
 				nfree, nfault = 5000, 200
 			}
@@ -153,7 +157,7 @@ func c14Exec(run *ev.Run, c ev.Case) {
 			f := faults[b.From%len(faults)]
 			// the walk issues at most 2 Get SDR per record
 			for at := 1; at <= 2*n+1; at++ {
-				p := c14P{Seed: b.Seed*77 + int64(b.From), NRecs: n, FirstID: first, Fault: f, At: at, Suite: b.From % 9}
+				p := c14P{Seed: b.Seed*77 + int64(b.From), NRecs: n, FirstID: first, Fault: f, At: at, Suite: b.From % 9, TS: (b.From / len(faults)) % 5}
 				if f == "double" {
 					p.At2 = at + 1 + r.Intn(3)
 				}
@@ -192,6 +196,16 @@ func c14One(run *ev.Run, p c14P) {
 		repo.EraseTS = repo.AddTS + uint32(1+r.Intn(5000))
 	} else {
 		repo.EraseTS = repo.AddTS - uint32(r.Intn(5000))
+	}
+	switch p.TS {
+	case 1:
+		repo.StampFn = func(uint32) uint32 { return 0xffffffff }
+	case 2:
+		repo.AddTS, repo.EraseTS = 0x7fffffff-uint32(r.Intn(2)), 0x7fffffff-uint32(r.Intn(2))
+	case 3:
+		repo.AddTS, repo.EraseTS = 0, 0
+	case 4:
+		repo.AddTS, repo.EraseTS = 0xfffffff0+uint32(r.Intn(4)), 0xfffffff0+uint32(r.Intn(4))
 	}
 	injected := 0
 	modify := func(rp *refbmc.Repo, kind string, cancelResv bool) {
